@@ -2,6 +2,7 @@ import Model.ProbingBuild
 import Proofs.ProbingBuildOps
 import Proofs.ProbingBuildBigram
 import Proofs.ProbingBuildRep
+import Proofs.ProbingBuildBlank
 import Properties.C03
 /-! C03/C01 — the probing *builder* inside the model (`Model/ProbingBuild.lean` = lm/search_hashed.cc ReadNGrams,
 FindLower, AdjustLower, MarkLower, activate, unigram sign fix, missing-`<unk>` fix-up).
@@ -85,6 +86,45 @@ theorem probing_end_to_end_closed (combine : Nat → Word → Nat) (a : Arpa) (n
   obtain ⟨s, Mmid, Mlong, hb, rep⟩ := build_represents_closed combine a nWords buckets um ok hsorted hnd hcaps
   exact ⟨s, hb, KV.C03.probing_prob a ok.wf (fun _ => false) combine _ Mmid Mlong rep inj h st sf w hw⟩
 
+/-! ### blanks — the general invariant and the single-blank step (partial)
+
+`InvG combine a u0 N caps S s`: every order's table holds the stored keys `S` of that order — real lines *and*
+hallucinated blanks, in insertion order, under the C20 invariant — with payload `wantW a S k`: a real line's weights or
+a blank carrying `|score|` of its reversed suffix and back-off `-0.0`, sign bit cleared iff a stored key of the next
+order ends in it, extension bit set iff its back-off is non-zero or a stored key of the next order has it as context. -/
+
+/-- a line whose immediate suffix is stored preserves the general invariant (with blanks possibly present) -/
+theorem blank_invariant_closed_line (combine : Nat → Word → Nat) (a : Arpa) (u0 : List W) (hu : UniOK u0) (N : Nat) (caps : Nat → Nat)
+    (S : List Key) (s : St) (inv : InvG combine a u0 N caps S s) (g : Key) (e : Entry)
+    (hn2 : 2 ≤ g.length) (hnN : g.length ≤ N) (hreal : a.gram g = some e)
+    (hasc : ∀ k ∈ S, k.length ≤ g.length)
+    (hfresh : ∀ k ∈ keysOf S g.length, hashOf combine k ≠ hashOf combine g)
+    (hcap : (keysOf S g.length).length + 1 < caps g.length)
+    (hbi : g.length = 2 → ∃ x y, g = [x, y] ∧ x < u0.length ∧ y < u0.length)
+    (hsuf : 3 ≤ g.length → g.take (g.length - 1) ∈ S) (hctx : 3 ≤ g.length → g.drop 1 ∈ S) :
+    ∃ s', addLine combine false N s g e = .ok s' ∧ InvG combine a u0 N caps (S ++ [g]) s' :=
+  invG_step_closed combine a u0 hu N caps S s inv g e hn2 hnN hreal hasc hfresh hcap hbi hsuf hctx
+
+/-- **`probing_blank1_step_partial`** — a trigram line whose bigram suffix is neither an n-gram of the model nor stored
+(the common SRI case): `FindLower` inserts the blank (not-found branch of `FindOrInsert`, counted against the bucket
+limit), `AdjustLower` gives it `|prob| = |bo(context) + p(unigram)| = |score|`, back-off `-0.0`, clears the sign bits of
+the blank and of the unigram basis, sets the extension bits of the two contexts — and the general invariant holds
+afterwards for `S ++ [blank, line]`.  Gap to `probing_build_represents_blank1`: the fold over a file mixing both kinds
+of lines, `S` at the end = the keys of `Table.build a`, `Represents` from `InvG`; and chains longer than one blank or
+based on an entry of order ≥ 2. -/
+theorem probing_blank1_step_partial (combine : Nat → Word → Nat) (a : Arpa) (u0 : List W) (hu : UniOK u0) (N : Nat) (caps : Nat → Nat)
+    (S : List Key) (s : St) (inv : InvG combine a u0 N caps S s) (x y z : Word) (e : Entry)
+    (hN : 3 ≤ N) (hreal : a.gram [x, y, z] = some e) (hblank : a.gram [x, y] = none)
+    (hasc : ∀ k ∈ S, k.length ≤ 3)
+    (hfresh3 : ∀ k ∈ keysOf S 3, hashOf combine k ≠ hashOf combine [x, y, z])
+    (hfresh2 : ∀ k ∈ keysOf S 2, hashOf combine k ≠ hashOf combine [x, y])
+    (hcap3 : (keysOf S 3).length + 1 < caps 3) (hcap2 : (keysOf S 2).length + 1 < caps 2)
+    (hE : endsInK S [x, y] = false) (hSW : startsWithK S [x, y] = false)
+    (hctx : [y, z] ∈ S) (hx : x < u0.length) (hy : y < u0.length)
+    (hval : (-(u0.getD x default).mag + (u0.getD y default).backoff).abs = (score a [y] x).abs) :
+    ∃ s', addLine combine false N s [x, y, z] e = .ok s' ∧ InvG combine a u0 N caps (S ++ [[x, y]] ++ [[x, y, z]]) s' :=
+  invG_step_blank3 combine a u0 hu N caps S s inv x y z e hN hreal hblank hasc hfresh3 hfresh2 hcap3 hcap2 hE hSW hctx hx hy hval
+
 /-- the full statement (NOT proved for models that need blanks): the built structure represents `Table.build a` -/
 def ProbingBuildRepresents (combine : Nat → Word → Nat) (a : Arpa) (nWords : Nat) (buckets : List Nat) : Prop :=
   ∃ s Mmid Mlong, build combine false a nWords buckets = .ok s ∧
@@ -101,5 +141,71 @@ theorem probing_end_to_end_partial (combine : Nat → Word → Nat) (a : Arpa) (
       (fullScore (KV.ProbingLM.search combine (toPLM false a.order s)) st w).1.prob = score a h w := by
   obtain ⟨s, Mmid, Mlong, hb, rep⟩ := hrep
   exact ⟨s, hb, KV.C03.probing_prob a wf (fun _ => false) combine _ Mmid Mlong rep inj h st sf w hw⟩
+
+/-! ### non-vacuity -/
+
+/-- a concrete (injective on the examples) word-hash combiner -/
+def cmb (c : Nat) (w : Word) : Nat := c * 16 + w + 1
+
+/-- a concrete `ArpaOK` instance: the hypotheses of `probing_build_represents_closed` are satisfiable -/
+theorem demoClosed_ok : ArpaOK KV.C01.demoClosed 4 (-100) := by
+  refine ⟨KV.C01.demoClosed_wf, KV.C01.demoClosed_closed, ?_, ?_, ?_, by decide +kernel⟩
+  · intro g e h
+    have hm := lookup_some_mem _ _ _ h
+    simp [KV.C01.demoClosed] at hm
+    rcases hm with h | h | h | h | h | h | h <;> (obtain ⟨_, rfl⟩ := h) <;> decide +kernel
+  · intro w
+    constructor
+    · intro h
+      match w, h with
+      | 0, _ => decide +kernel
+      | 1, _ => decide +kernel
+      | 2, _ => decide +kernel
+      | 3, _ => decide +kernel
+    · intro h
+      obtain ⟨e, he⟩ := Option.ne_none_iff_exists'.mp h
+      have hm := lookup_some_mem _ _ _ he
+      simp [KV.C01.demoClosed] at hm
+      rcases hm with h | h | h | h <;> (obtain ⟨rfl, _⟩ := h) <;> decide
+  · intro h; exact absurd h (by decide)
+
+example : ∃ s Mmid Mlong, build cmb false KV.C01.demoClosed 4 [4, 4] (-100) = .ok s ∧
+    Represents cmb (toPLM false KV.C01.demoClosed.order s) (KV.Table.build KV.C01.demoClosed) Mmid Mlong :=
+  KV.C03ProbingBuild.probing_build_represents_closed cmb KV.C01.demoClosed 4 [4, 4] (-100) demoClosed_ok
+    (by decide +kernel) (by decide +kernel) (by intro m; match m with
+      | 0 => decide +kernel | 1 => decide +kernel | 2 => decide +kernel | 3 => decide +kernel
+      | m+4 => simp [linesOf, ngramLines, KV.C01.demoClosed, capOf])
+
+/-- "a b c d" (1 2 3 4) present with contexts "a b c", "a b"; its suffixes "b c d" and "c d" are pruned:
+two-level blank chain [4,3,2] → [4,3] based on the unigram 4 -/
+def demoPruned : Arpa :=
+  { order := 4,
+    entries := [([0], ⟨-5, 0, false⟩), ([1], ⟨-1, -1/2, false⟩), ([2], ⟨-1, -1/4, false⟩), ([3], ⟨-2, -1/8, false⟩), ([4], ⟨-3, 0, false⟩),
+                ([2,1], ⟨-1/2, -1/16, false⟩), ([3,2], ⟨-3/4, -1/32, false⟩), ([3,2,1], ⟨-1/3, -1/64, false⟩), ([4,3,2,1], ⟨-1/5, 0, false⟩)] }
+
+/-- the built structure holds every key of `Table.build a` with the payload it prescribes -/
+def repCheck (combine : Nat → Word → Nat) (a : Arpa) (st : St) : Bool :=
+  (keys a).all fun g =>
+    match (KV.Table.build a).lookup g with
+    | none => true
+    | some t =>
+      match g with
+      | [] => true
+      | [w] => wFound false (st.uni.getD w default) == toFound t
+      | _ =>
+        if g.length == a.order then
+          match KV.Probing.find id st.longest.t (hashOf combine g) with
+          | some (some i) => -(st.longest.pay.getD i default).mag == t.prob
+          | _ => false
+        else
+          match KV.Probing.find id (st.mid.getD (g.length - 2) default).t (hashOf combine g) with
+          | some (some i) => wFound false ((st.mid.getD (g.length - 2) default).pay.getD i default) == toFound t
+          | _ => false
+
+example : (KV.Table.build demoPruned).lookup [4,3,2] = some ⟨-1/32 + (-1/8 + -3), 0, true, false, true⟩ := by decide +kernel
+example : (KV.Table.build demoPruned).lookup [4,3] = some ⟨-1/8 + -3, 0, true, false, true⟩ := by decide +kernel
+example : (match build cmb false demoPruned 5 [4, 4, 4] (-100) with
+    | .ok st => repCheck cmb demoPruned st
+    | .error _ => false) = true := by decide +kernel
 
 end KV.C03ProbingBuild
